@@ -28,7 +28,7 @@ CLAIMS = {
             'Decides provenance and shape for all paths: key/nonce of EncryptionConfig and the ephemeral scalar must-derive from an OS-seeded '
             'ChaCha20Rng; no seeded generator constructor exists in the library crates; every byte transfer of the encryption writer to its inner '
             'writer is an encrypted buffer or a tag and the layer is stacked whenever ENCRYPT is enabled; the reader accepts a key only from the '
-            'tag-verified Ok(Some) payload of retrieve_key, tries every candidate key, and fails otherwise; a wrapped key is stored for every element of the recipients argument. Absence of plaintext in the bytes and '
+            'tag-verified Ok(Some) payload of retrieve_key, tries every candidate key, and fails otherwise; a wrapped key is stored for every element of the recipients argument; enable_layer only adds and disable_layer only removes layers. Absence of plaintext in the bytes and '
             'uniqueness of OS randomness are not decided.'),
     'C12': (TECH_RULES, '§4 C12',
             'Decides on all (constant-flag-sensitive) paths of helpers::linear_extract: Ok(()) only through the EndOfArchiveData arm and parse errors '
@@ -52,22 +52,22 @@ CLAIMS = {
             'Decides for all paths of the C entry points: a null test dominates every use of each raw-pointer parameter and of each handle loaded through one, '
             'and its null edge cannot report Success; Box::from_raw is paired with Box::leak on every normal exit unless the handle was released; the Err '
             'outcome of every fallible library call cannot reach Success; callback adapters return Ok only on status 0 with the reported count; extraction '
-            'registers only caller-initialised writers, each built entirely (callbacks and context) from the FileWriter its per-file callback filled, and goes through linear_extract. Byte equality with the Rust interface is not decided.'),
+            'registers only caller-initialised writers, each built entirely (callbacks and context) from the FileWriter its per-file callback filled, and goes through linear_extract; the adapters refuse nothing by themselves before the callback is asked. Byte equality with the Rust interface is not decided.'),
     'C09': (TECH_RULES + ' with interprocedural effect / refusal summaries', '§4 C09',
             'Decides for all paths of the ArchiveWriter call tree: no refusal knowable before writing (duplicate / over-long name, wrong state, unknown id) is '
             'reachable after an effect on the writer state or the destination (fixpoint summaries; structural discharges for contradicted arms and already-tested '
             'limits; dead refusals tabled with their invariant); effects sit behind the state and id-membership tests; the copied byte count is compared '
-            'with the announced length; refusals surface through StreamWriter and the CLI; current_id bookkeeping keeps every run findable; no adaptor discards an error of the destination (a genuine defect, repaired in /repo). Equality of the final archive with the reference model is not decided.'),
+            'with the announced length; refusals surface through StreamWriter and the CLI; current_id bookkeeping keeps every run findable; the block parser accepts every name length the writer side accepts; no adaptor discards an error of the destination (a genuine defect, repaired in /repo). Equality of the final archive with the reference model is not decided.'),
     'C14': (TECH_RULES, '§4 C14',
             'Decides for all paths: every flush of the writer chain (all LayerWriter types, WriterWithCount, StreamWriter, ArchiveWriter, the C entry point '
             'and callback adapter, the CLI output type) returns Ok only after forwarding the flush to the wrapped writer and reports its failure; the '
             'pass-through layers own no byte container; the compression layer flushes the brotli compressor; the fail-safe decompressor must call the '
-            'decoder before reporting end of input (the genuine defect found was repaired in /repo); produced bytes are never replaced by an error and only a zero count ends the unauthenticated stream. The number of bytes recovered is not decided.'),
+            'decoder before reporting end of input (the genuine defect found was repaired in /repo); produced bytes are never replaced by an error, only a zero count ends the unauthenticated stream, and what follows the last completed chunk is refused as AuthenticatedDecryptionWrongTag (the error that ends the authenticated data). The number of bytes recovered is not decided.'),
     'C13': (TECH_RULES + ' + raw read/write census', '§4 C13',
             'Decides over every raw Write::write / Read::read call of the workspace: accepted and read counts are returned or accumulated, never dropped or '
             'replaced by the requested length; no raw write outside pass-through `impl Write::write` bodies (all other transfers use the looping forms); '
             'chunks handed to the cipher are complete reads on a bounded take; buffer contents are consumed only up to the count read; decoder-produced '
-            'zero counts must not be returned mid-stream (the genuine defect found was repaired in /repo); a short count is never taken for the end of a source, destination error kinds survive on the write path and an error kept for later is never an Interrupted one. Equality of the resulting archives is not decided.'),
+            'zero counts must not be returned mid-stream (the genuine defect found was repaired in /repo); a short count is never taken for the end of a source, destination error kinds survive on the write path an error kept for later is never an Interrupted one, and no reader fails on the number of rounds of its own loop. Equality of the resulting archives is not decided.'),
     'C02': (TECH_CENSUS + ' + MIR path rules on convert_to_archive', '§4 C02',
             'Decides: no unreviewed, input-tainted panic site is reachable from the fail-safe entry points (interval / guard / length-fact discharge, reviewed '
             'table); a file is marked done only on the hash-equal edge and the running hash covers exactly the appended slices; every Ok result follows a '
